@@ -227,6 +227,34 @@ harnesses! { REG, "C20", "c20";
         ob!("R1.hsva_round_trip", match back { Some(c) => f32eq(c.hue.into_raw_degrees(), h) && f32eq(c.saturation, s) && f32eq(c.value, v) && f32eq(c.alpha, a), None => false });
     }
 
+    { id: "round_trip.laba_struct", tier: quick, label: "complete",
+      func: "impl Deserialize for Alpha<Lab> -> serde::AlphaDeserializer (a colour with its own field named `a`)",
+      desc: "R1 for all non-NaN f32 components: deserializing the emitted token stream of Laba (fields l, a, b, alpha) returns the colour bit for bit - only the field named `alpha` is the transparency" }
+    #[kani::unwind(12)]
+    fn rt_laba(g) {
+        let (l, a, b, al) = (nn32(g), nn32(g), nn32(g), nn32(g));
+        cov!(g, a != al);
+        let toks = [Tok::Struct("Lab", 4), Tok::Field("l"), Tok::F32(l.to_bits()), Tok::Field("a"), Tok::F32(a.to_bits()), Tok::Field("b"), Tok::F32(b.to_bits()),
+                    Tok::Field("alpha"), Tok::F32(al.to_bits()), Tok::StructEnd];
+        let back: Option<Laba<palette::white_point::D65, f32>> = de(&toks);
+        ob!("R1.laba_round_trip", match back { Some(c) => f32eq(c.l, l) && f32eq(c.a, a) && f32eq(c.b, b) && f32eq(c.alpha, al), None => false });
+    }
+
+    { id: "optional_alpha.missing_in_sequence", tier: quick, label: "complete",
+      func: "serde::deserialize_with_optional_alpha, AlphaDeserializer seq path [serde.rs, serde/alpha_deserializer.rs]",
+      desc: "R4 for all u8 components: a transparent type read from SEQUENCE-shaped data that ends after the colour's own values gets max_intensity; with a trailing element it is the alpha" }
+    #[kani::unwind(12)]
+    fn opt_missing_seq(g) {
+        let (r, gr, b, a) = (g.u8(), g.u8(), g.u8(), g.u8());
+        cov!(g, r != gr);
+        let no_alpha = [Tok::Struct("Wrap", 1), Tok::Field("c"), Tok::Tuple(3), Tok::U8(r), Tok::U8(gr), Tok::U8(b), Tok::TupleEnd, Tok::StructEnd];
+        let o: Option<OptAlpha> = de(&no_alpha);
+        ob!("R4.missing_alpha_in_sequence_is_full_opacity", match o { Some(x) => x.c.red == r && x.c.green == gr && x.c.blue == b && x.c.alpha == 255, None => false });
+        let with_alpha = [Tok::Struct("Wrap", 1), Tok::Field("c"), Tok::Tuple(4), Tok::U8(r), Tok::U8(gr), Tok::U8(b), Tok::U8(a), Tok::TupleEnd, Tok::StructEnd];
+        let o: Option<OptAlpha> = de(&with_alpha);
+        ob!("R4.trailing_element_is_alpha", match o { Some(x) => x.c.blue == b && x.c.alpha == a, None => false });
+    }
+
     { id: "sequence_shape.rgba_rgb", tier: quick, label: "complete",
       func: "AlphaDeserializer (seq path: AlphaSeqVisitor), derive(Deserialize) visit_seq",
       desc: "R1 for all u8 components: colours read from tuple/seq shaped data, colour fields in order then alpha last" }
